@@ -68,6 +68,7 @@ fn main() {
                 runs: arg(&args, "--runs").and_then(|s| s.parse().ok()),
                 verif_dir: arg(&args, "--verif-dir").map(|s| s.to_string()).unwrap_or_else(core::rt::verif_dir),
                 out_dir: String::new(),
+                summary_only: arg(&args, "--summary-only").map(|s| s.to_string()),
                 emit_fp: false,
             })
             .exit
@@ -83,6 +84,7 @@ fn main() {
                 runs: arg(&args, "--runs").and_then(|s| s.parse().ok()),
                 verif_dir: core::rt::verif_dir(),
                 out_dir: String::new(),
+                summary_only: None,
                 emit_fp: true,
             };
             let total = a.runs.unwrap_or(1000);
@@ -123,6 +125,16 @@ fn main() {
         "selftest" => {
             println!("hash seam ok; engine = {}", pool::ENGINE);
             0
+        }
+        "runs" => {
+            // number of cases of a tier (used by ./check to size the cross-check)
+            match props::by_id(arg(&args, "--prop").unwrap_or("")) {
+                Some(p) => {
+                    println!("{}", p.runs(tier_of(arg(&args, "--tier"))));
+                    0
+                }
+                None => 2,
+            }
         }
         "list" => {
             for p in props::all() {
